@@ -50,7 +50,7 @@ ASSUMPTIONS = [
     "the frustum shares centre and radius with the sphere at one end (the statement's case)",
     "heights > 0, sphere radii > 0; far-end radius >= 0",
 ]
-REQUIRED = ["composites_built_between_build_and_measure", "sphere_pairs_in_small_units", "sphere_checked", "cap_checked", "frustum_checked", "ss_intersections", "ss_unions",
+REQUIRED = ["composites_built_between_build_and_measure", "centre_arrays_overwritten_after_construction", "sphere_pairs_in_small_units", "sphere_checked", "cap_checked", "frustum_checked", "ss_intersections", "ss_unions",
             "sf_intersections", "sf_unions", "ss_tangent", "ss_nested", "ss_concentric",
             "ss_smaller_first", "sf_far_end_order", "sf_taper_narrowing", "sf_taper_widening",
             "sf_frustum_inside_sphere", "sf_h_below_r", "sf_h_above_r", "sf_axis_aligned",
@@ -101,6 +101,18 @@ def true_sf(r1, r2, h):
 def _dir(case):
     u = np.array(case["u"], dtype=np.float64)
     return u / np.linalg.norm(u)
+
+
+def _caller_reuses(ctx, scale, *arrays):
+    """The caller's coordinate arrays are working buffers: once the solids are built it moves on and
+    overwrites them (the next pair of points).  The solids stay where they were built."""
+    k = 0
+    for a in arrays:
+        if isinstance(a, np.ndarray) and a.flags.writeable and a.dtype.kind == "f":
+            a += (3.0 + 2 * k) * scale
+            k += 1
+    if k:
+        ctx.count("centre_arrays_overwritten_after_construction")
 
 
 def _vol(ctx, case, obj):
@@ -204,7 +216,10 @@ def execute(ctx, case):
             u = _dir(case)
             c2 = c + u * d
             dd = float(np.linalg.norm(c - c2))  # the distance the library will see
-            s1, s2 = VolSphere(cin, r1), VolSphere(c2.astype(cin.dtype) if small else c2, r2)
+            c2_ = c2.astype(cin.dtype) if small else c2
+            s1, s2 = VolSphere(cin, r1), VolSphere(c2_, r2)
+            if ctx.evaluations % 3 == 0:
+                _caller_reuses(ctx, r1 + r2, cin, c2_)
             ti = true_ss(r1, r2, dd)
             v1, v2 = 4 / 3 * np.pi * r1 ** 3, 4 / 3 * np.pi * r2 ** 3
             if r1 < r2:
@@ -233,6 +248,8 @@ def execute(ctx, case):
                 c2 = c2.astype(cin.dtype)
             fc = VolFrustumCone(cin, r1, c2, r2) if not far else VolFrustumCone(c2, r2, cin, r1)
             s = VolSphere(cin, r1)
+            if ctx.evaluations % 3 == 0:
+                _caller_reuses(ctx, r1 + hh, cin, c2)
             ti = true_sf(r1, r2, hh)
             vs = 4 / 3 * np.pi * r1 ** 3
             vf = np.pi * hh * (r1 * r1 + r1 * r2 + r2 * r2) / 3
